@@ -338,6 +338,10 @@ fn for_each_king_pair(mut f: impl FnMut(u8, u8)) {
 
 #[derive(Clone, Copy, PartialEq, Eq, Debug)]
 pub enum Family {
+    /// own king anywhere, an enemy queen/rook/bishop on every square aligned with it, one own piece
+    /// of every type anywhere (pinned when it stands between them, a possible blocker or capturer
+    /// when the slider gives check), enemy king parked in a far corner
+    Pin,
     /// the positions ONE PLY BEFORE the members of `Ep`: the pawn still on its origin square and
     /// its side to move; only the double push is played, and the board reached by that move (marker
     /// set by the move code, not by the parser) is checked
@@ -368,6 +372,54 @@ pub fn family_positions(fam: Family, level: u8) -> Vec<Position> {
     let mut out = vec![];
     let extras = [Pc::Q, Pc::R, Pc::B, Pc::N];
     match fam {
+        Family::Pin => {
+            for wk in 0..64u8 {
+                let (kf, kr) = ((wk % 8) as i8, (wk / 8) as i8);
+                for s in 0..64u8 {
+                    let (sf, sr) = ((s % 8) as i8, (s / 8) as i8);
+                    if s == wk {
+                        continue;
+                    }
+                    let straight = sf == kf || sr == kr;
+                    let diagonal = (sf - kf).abs() == (sr - kr).abs();
+                    if !straight && !diagonal {
+                        continue;
+                    }
+                    for slider in [Pc::Q, Pc::R, Pc::B] {
+                        if (slider == Pc::R && !straight) || (slider == Pc::B && !diagonal) {
+                            continue;
+                        }
+                        let Some(&bk) = [63u8, 56, 7, 0].iter().find(|&&c| {
+                            let (cf, cr) = ((c % 8) as i8, (c / 8) as i8);
+                            c != wk && c != s && (cf - kf).abs().max((cr - kr).abs()) > 1
+                        }) else {
+                            continue;
+                        };
+                        for x in [Pc::Q, Pc::R, Pc::B, Pc::N, Pc::P] {
+                            for xs in 0..64u8 {
+                                if x == Pc::P && (xs < 8 || xs >= 56) {
+                                    continue;
+                                }
+                                // level 0: the own piece stands on a line through the king or next to it
+                                if level == 0 {
+                                    let (xf, xr) = ((xs % 8) as i8, (xs / 8) as i8);
+                                    let on_line = xf == kf || xr == kr || (xf - kf).abs() == (xr - kr).abs();
+                                    if !on_line && (xf - sf).abs().max((xr - sr).abs()) > 2 {
+                                        continue;
+                                    }
+                                }
+                                let mut p = Position::empty();
+                                p.turn = Col::W;
+                                p.full = 1;
+                                if place(&mut p, wk, Col::W, Pc::K) && place(&mut p, s, Col::B, slider) && place(&mut p, bk, Col::B, Pc::K) && place(&mut p, xs, Col::W, x) {
+                                    out.push(p);
+                                }
+                            }
+                        }
+                    }
+                }
+            }
+        }
         Family::EpPlayed => {
             for m in family_positions(Family::Ep, level) {
                 let Some(f) = m.ep else { continue };
